@@ -32,4 +32,8 @@ CATALOGUE = [
     ('variant', A, "        fx = self.forward(xbar) - self.y0 # have to subtract offset\n        return self.a*(1 - fx**2)", "        e = np.exp(-2 * self.a * (xbar - self.x0))\n        return 4 * self.a * e / (1 + e)**2", '', 'tanh derivative in closed form'),
     ('variant', C, "        grad = 2 * alpha * diff\n", "        grad = (diff + diff) / diff.size\n", '', 'mse gradient rewritten'),
     ('mutant', C, "    beta = (D-alphaI).sum()/N", "    beta = (D-alphaI)/N", 'C06.cost', 'bias is a per-sample array instead of the scalar least-squares bias (pinned defect, fixed by c6e7906)'),
+    ('mutant', D, "            protograd = fourier_resample_backprop(protograd, self.upsample, self.Nresample)", "            protograd = fourier_resample(protograd, 1/self.upsample)", 'C06.dm', 'resampling answered by resampling with the reciprocal factor (pinned defect, fixed by 22c3645)'),
+    ('mutant', F, "    out *= (m*n) * (zoom[0]*zoom[1])/(np.sqrt(m*n))", "    out *= (zoom[0]*zoom[1])/(np.sqrt(m*n))", 'C06.dm', 'resampler transpose without the m n of fft2^H'),
+    ('mutant', F, "    out = fft.fftshift(fft.ifft2(fft.ifftshift(Fbar))).real", "    out = fft.fftshift(fft.fft2(fft.ifftshift(Fbar))).real", 'C06.dm', 'resampler transpose with the forward FFT'),
+    ('mutant', F, "    Fbar = mdft.idft2_backprop(fbar, zoom, (m, n))", "    Fbar = mdft.idft2_backprop(fbar, zoom, (n, m))", 'C06.dm', 'resampler transpose with the input size transposed'),
 ]
